@@ -278,10 +278,20 @@ fn exec_history(t: &mut Tape, st: &mut Stats) -> Result<(), String> {
         if len < cap {
             shorts += 1;
         }
-        let (c, _p) = with_out(out_n, |out| s.write(&pattern()[..len], out))
-            .map_err(|e| format!("history write #{} ({} bytes into {}) failed: {:?}", i, len, out_n, e))?;
-        if c != len {
-            return Err(format!("history write #{}: {} bytes (advertised {}) into {} bytes consumed {}", i, len, cap, out_n, c));
+        // only a write of the advertised amount is judged here (that is the statement); what a shorter one consumes is C19's subject
+        match with_out(out_n, |out| s.write(&pattern()[..len], out)) {
+            Ok((c, _p)) => {
+                if len == cap && c != len {
+                    return Err(format!("history write #{}: the advertised {} bytes into {} bytes consumed {}", i, cap, out_n, c));
+                }
+            }
+            Err(e) => {
+                if len == cap {
+                    return Err(format!("history write #{} (the advertised {} bytes into {}) failed: {:?}", i, len, out_n, e));
+                }
+                st.class("history_write_refused");
+                return Ok(());
+            }
         }
     }
     if shorts > 0 && chunked {
